@@ -52,15 +52,31 @@ func portField(v ssa.Value) string {
 	case *ssa.FieldAddr:
 		n, f := core.FieldName(x)
 		if n != nil && n.Obj().Pkg() != nil && n.Obj().Pkg().Path() == pkgEval && (n.Obj().Name() == "Port" || n.Obj().Name() == "valueOutput") {
-			return n.Obj().Name() + "." + f
+			return canonicalPortField(n.Obj().Name(), f, x.Type())
 		}
 	case *ssa.Field:
 		n, f := core.FieldOfValue(x)
 		if n != nil && n.Obj().Pkg() != nil && n.Obj().Pkg().Path() == pkgEval && (n.Obj().Name() == "Port" || n.Obj().Name() == "valueOutput") {
-			return n.Obj().Name() + "." + f
+			return canonicalPortField(n.Obj().Name(), f, x.Type())
 		}
 	}
 	return ""
+}
+
+// canonicalPortField: the value channel of valueOutput is recognised by its
+// type (a channel of any), whatever the unexported field is called.
+func canonicalPortField(typeName, field string, t types.Type) string {
+	if typeName == "valueOutput" {
+		if ptr, ok := t.(*types.Pointer); ok {
+			t = ptr.Elem()
+		}
+		if ch, ok := t.Underlying().(*types.Chan); ok {
+			if it, ok := ch.Elem().Underlying().(*types.Interface); ok && it.NumMethods() == 0 {
+				return "valueOutput.data"
+			}
+		}
+	}
+	return typeName + "." + field
 }
 
 func isValueChanField(f string) bool {
